@@ -181,7 +181,7 @@ func c05(c *Ctx) {
 		var nilRets []ssa.Instruction
 		for _, b := range f.Blocks {
 			for _, in := range b.Instrs {
-				if ret, ok := an.AsReturn(in); ok && len(ret.Results) == 1 && an.MayBeNilConst(an.RetVal(ret, 0)) {
+				if ret, ok := an.AsReturn(in); ok && len(ret.Results) == 1 && an.MayReturnNil(ret, 0) {
 					nilRets = append(nilRets, ret)
 				}
 			}
